@@ -113,6 +113,9 @@ fn render_container(kind: &str, types: &[String]) -> String {
             let post = ["bool", "uint64", "uint256", "address"][types.len() % 4];
             format!("pragma solidity 0.8.17;\ncontract Pre {{ {} only; }} contract Bare {{ }}\ncontract Holder {{\n{}}}\ncontract Post {{ {} last; }}\n", pre, members, post)
         }
+        // containers of a contract that inherits (bases without and with arguments): the members count as they do anywhere
+        "derivedcontract" => format!("pragma solidity 0.8.17;\nabstract contract Base {{ }} abstract contract Arg {{ constructor(uint256 a) {{ }} }}\ncontract Holder is Base, Arg(1) {{\n{}}}\n", members),
+        "derivedstruct" => format!("pragma solidity 0.8.17;\nabstract contract Base {{ }} interface IBase {{ }}\ncontract Outer is Base, IBase {{\n  struct Rec {{\n{}  }}\n}}\n", members),
         "structbetween" => {
             let pre = ["uint8", "uint128", "address", "bool", "bytes4", "uint256"][types.len() * 5 % 6];
             format!("pragma solidity 0.8.17;\nstruct Pre {{ {} only; }} contract Has {{ {} v; }}\nstruct Rec {{\n{}}}\nstruct Post {{ {} last; }}\n", pre, pre, members, pre)
@@ -127,7 +130,7 @@ fn render_container(kind: &str, types: &[String]) -> String {
 /// line on which the container begins in the rendering above
 fn container_line(kind: &str) -> i32 {
     match kind {
-        "contract" | "abstractcontract" | "contractmixed" | "filestruct" | "contractbetween" | "structbetween" => 3,
+        "contract" | "abstractcontract" | "contractmixed" | "filestruct" | "contractbetween" | "structbetween" | "derivedcontract" => 3,
         _ => 4,
     }
 }
@@ -179,7 +182,8 @@ pub fn replay(behaviours: &str, out: &mut Outcome) {
             })
             .collect();
         for (kind, det) in [("contract", pack_storage), ("abstractcontract", pack_storage), ("contractmixed", pack_storage), ("filestruct", pack_struct), ("innerstruct", pack_struct),
-                            ("contractbetween", pack_storage), ("structbetween", pack_struct)] {
+                            ("contractbetween", pack_storage), ("structbetween", pack_struct),
+                            ("derivedcontract", pack_storage), ("derivedstruct", pack_struct)] {
             let src = render_container(kind, &types);
             check_verdict(out, &src, kind, det, &sizes, &verdict, container_line(kind));
         }
